@@ -726,9 +726,13 @@ fn random_call(out: &mut Out, w: &mut World, rng: &mut Rng, recs: &mut Vec<Rec>)
         18 => {
             // whole-context deserialization
             let mut c = ffi::wirefilter_create_execution_context(w.scheme);
-            let jsons: [&[u8]; 5] = [b"{\"num1\":3}", b"{\"num1\":\"x\"}", b"{\"nosuch\":1}", b"{", b"{\"b1\":true,\"str1\":\"a\\u0000b\"}"];
+            let jsons: [&[u8]; 6] = [b"{\"num1\":3}", b"{\"num1\":\"x\"}", b"{\"nosuch\":1}", b"{", b"{\"b1\":true,\"str1\":\"a\\u0000b\"}", b"{\"str1\":\"plain text value\",\"num1\":7}"];
             let json = *rng.pick(&jsons);
-            let okc = ffi::wirefilter_deserialize_json_to_execution_context(&mut c, json.as_ptr(), json.len());
+            // the caller owns the buffer and reuses it once the call has returned
+            let mut buf: Vec<u8> = json.to_vec();
+            let okc = ffi::wirefilter_deserialize_json_to_execution_context(&mut c, buf.as_ptr(), buf.len());
+            buf.iter_mut().for_each(|b| *b = b'x');
+            std::mem::forget(buf);
             let mut r = wirefilter::ExecutionContext::<()>::new(w.scheme);
             let mut de = serde_json::Deserializer::from_reader(json);
             let expect = (&mut r).deserialize(&mut de).map_err(|e| e.to_string());
